@@ -67,6 +67,9 @@ type vtBatch struct {
 	K      []string `json:"k"` // hex keys, sorted by the generator
 	V      []string `json:"v"` // hex values; "00" = DefaultLeaf
 	Commit bool     `json:"commit"`
+	// SetRoot != nil: no update; the same instance is pointed back at the root after batch
+	// *SetRoot (Trie.Root = oldRoot, what StateDB.SetRoot does on a reorganisation)
+	SetRoot *int `json:"setroot"`
 }
 
 type vtCase struct {
@@ -76,6 +79,8 @@ type vtCase struct {
 	Q       []string  `json:"q"`      // keys to Get / prove after every batch
 	Proofs  int       `json:"proofs"` // 0 none, 1 final root, 2 also every committed root
 	Dump    bool      `json:"dump"`   // dump updatedNodes (key, serialized batch) after every Update
+	// CacheLimit != nil: Trie.CacheHeightLimit of the instance (default TrieHeight+1: no cache)
+	CacheLimit *int `json:"cache_limit"`
 }
 
 type vtProof struct {
@@ -109,6 +114,7 @@ type vtReopen struct {
 type vtObs struct {
 	Roots   []string      `json:"roots"`
 	Upd     [][][2]string `json:"upd"`   // per batch: updatedNodes as (key, serializeBatch) sorted by key
+	Cache   [][][2]string `json:"cache"` // per batch: liveCache, same format
 	Fresh   []string      `json:"fresh"` // root of a new trie built from the surviving pairs in one batch
 	Gets    [][]string    `json:"gets"`
 	Reopen  []vtReopen    `json:"reopen"`
@@ -209,8 +215,13 @@ func vtRunCase(c *vtCase) (o vtObs) {
 	hash := pickHash(c.Hash)
 	store := vtNewStore()
 	tr := NewTrie(nil, hash, store)
+	if c.CacheLimit != nil {
+		tr.CacheHeightLimit = *c.CacheLimit
+	}
 	q := unhxs(c.Q)
 	cur := map[string][]byte{}
+	var snaps []map[string][]byte
+	var allRoots [][]byte
 	type hist struct {
 		at   int
 		root []byte
@@ -220,7 +231,17 @@ func vtRunCase(c *vtCase) (o vtObs) {
 		keys, vals := unhxs(b.K), unhxs(b.V)
 		var root []byte
 		var err error
-		if c.Atomic {
+		if b.SetRoot != nil {
+			tr.Root = append([]byte{}, allRoots[*b.SetRoot]...)
+			if len(tr.Root) == 0 {
+				tr.Root = nil
+			}
+			root = tr.Root
+			cur = map[string][]byte{}
+			for k, v := range snaps[*b.SetRoot] {
+				cur[k] = v
+			}
+		} else if c.Atomic {
 			root, err = tr.AtomicUpdate(keys, vals)
 		} else {
 			root, err = tr.Update(keys, vals)
@@ -231,6 +252,15 @@ func vtRunCase(c *vtCase) (o vtObs) {
 		}
 		root = append([]byte{}, root...)
 		o.Roots = append(o.Roots, hx(root))
+		allRoots = append(allRoots, root)
+		if c.Dump {
+			cents := make([][2]string, 0, len(tr.db.liveCache))
+			for k, b := range tr.db.liveCache {
+				cents = append(cents, [2]string{hx(k[:]), hx(tr.db.serializeBatch(b))})
+			}
+			sort.Slice(cents, func(i, j int) bool { return cents[i][0] < cents[j][0] })
+			o.Cache = append(o.Cache, cents)
+		}
 		if c.Dump {
 			ents := make([][2]string, 0, len(tr.db.updatedNodes))
 			for k, b := range tr.db.updatedNodes {
@@ -246,6 +276,11 @@ func vtRunCase(c *vtCase) (o vtObs) {
 				cur[string(k)] = vals[i]
 			}
 		}
+		snap := map[string][]byte{}
+		for k, v := range cur {
+			snap[k] = v
+		}
+		snaps = append(snaps, snap)
 		g, err := vtGets(tr, q)
 		if err != nil {
 			o.Err = fmt.Sprintf("get after batch %d: %v", bi, err)
@@ -277,7 +312,7 @@ func vtRunCase(c *vtCase) (o vtObs) {
 			}
 			o.Fresh = append(o.Fresh, hx(fr))
 		}
-		if b.Commit {
+		if b.Commit && b.SetRoot == nil {
 			if err := tr.Commit(); err != nil {
 				o.Err = fmt.Sprintf("commit %d: %v", bi, err)
 				return
